@@ -19,7 +19,8 @@ SCOPE = ("BOUNDED: structure (the composite grammar, null / empty / absent posit
          "fixed- vs variable-width vector elements) and small-magnitude values only. Numbers stay within 32 bits "
          "(64-bit fields carry sign-extended 32-bit values, varints reach 4 bytes, vints 5 bytes); magnitudes beyond "
          "that, float/double bit patterns, the textual forms of inet / uuid, UTF-8 validation and calendar arithmetic "
-         "are outside what this TLA+ specification can decide and are not covered.")
+         "over large ranges are outside what this TLA+ specification can decide and are not covered (timestamps given as "
+         "a wall-clock reading with a UTC offset are covered for readings within a day of the epoch only).")
 
 META = {
     "property_id": "C02",
@@ -79,7 +80,7 @@ def run(ctx):
     ctx.note("rule", "one case = one TLC state (type tree, protocol version, abstract value | out-of-range number | "
                      "null/empty cell); distinct by the whole case; non-trivial = a composite with at least one element, "
                      "a scalar whose encoding has more than one byte, or an expectation other than a plain encoding")
-    for need in ("null-field", "null-collection-element", "empty-collection", "short-udt-encodings",
+    for need in ("null-field", "null-collection-element", "empty-collection", "aware-timestamp", "short-udt-encodings",
                  "v2-16bit-collection", "depth-2", "depth-3"):
         if not feats.get(need):
             raise tlc.MachineryError("vacuity: no case with feature %s" % need)
